@@ -42,10 +42,28 @@ def run_check(prop, tier, repo_root=None, quiet=False):
                     extra)
         if tier == "thorough" and rc == 0:
             from . import selftest
-            st_rc = selftest.run([prop], jobs=int(os.environ.get(
-                "NGS_JOBS", "16")), evidence=True)
+            jobs = int(os.environ.get("NGS_JOBS", "16"))
+            st_rc = selftest.run([prop], jobs=jobs, evidence=True)
             if st_rc != 0:
                 return st_rc
+            # informational single-site mutation sweep (never changes the
+            # verdict): how much of a generic mutant population the rules of
+            # this property report
+            from . import mutsweep
+            from .report import VERIF
+            sw = mutsweep.sweep(prop, jobs=jobs,
+                                limit=int(os.environ.get("NGS_SWEEP", "300")),
+                                seed=seed)
+            print("mutation sweep: %d single-site mutants of %d modules, %d "
+                  "reported, %d undecided/anchor, %d silent, %.1fs"
+                  % (sw["mutants"], len(sw["modules"]), sw["reported"],
+                     sw["undecided_or_anchor"], sw["silent"], sw["wall_s"]))
+            path = os.path.join(VERIF, "evidence", "%s.json" % prop)
+            if os.path.exists(path) and not os.environ.get("NGS_NO_EVIDENCE"):
+                ev = json.load(open(path))
+                ev["coverage"]["mutation_sweep"] = sw
+                ev["wall_s"] = round(ev["wall_s"] + sw["wall_s"], 3)
+                json.dump(ev, open(path, "w"), indent=1)
         return rc
     except AnalysisError as exc:
         print("ANALYSIS-ERROR property=%s %s" % (prop, exc))
